@@ -3,7 +3,7 @@
 (* Configuration / snapshot / cached distribution of Sampler and           *)
 (* QuickSampler, and the result attributes of Analyzer (C11).              *)
 (*                                                                         *)
-(* The world holds two circuit objects A and B with the same components    *)
+(* The world holds circuit objects A, B (and C) with the same components   *)
 (* (a shared Parameter with value token pv, plus e[c] extra components     *)
 (* appended in place) that differ ONLY in the photon number of their       *)
 (* herald, and one PostSelection object X whose rule content psc can be    *)
@@ -30,8 +30,8 @@ CONSTANTS Kind,        \* "sampler" | "quick" | "analyzer"
 
 VARIABLES w, cfg, snap, cached, cont, used, last, err, an
 vars == <<w, cfg, snap, cached, cont, used, last, err, an>>
-Circs == {"A", "B"}
-HeraldOf(c) == IF c = "A" THEN 0 ELSE 1
+Circs == {"A", "B", "C"}          \* A, B: herald on the same mode with 0 / 1 photons; C: herald on another mode
+HeraldOf(c) == IF c = "A" THEN 0 ELSE IF c = "B" THEN 1 ELSE 2
 UTok(c) == <<w.pv, w.e[c]>>
 PSTok == IF cfg.ps = 0 THEN 0 ELSE 1 + w.psc
 DistKey == IF Kind = "quick" THEN <<UTok(cfg.circ), HeraldOf(cfg.circ), cfg.inp, PSTok, cfg.pnr>>
